@@ -95,3 +95,19 @@ CLAIMS = {
     "C19": {"text": "TestText / ListBlocks (CatOracle) predict the '=?' response and the command list from the descriptor; TLC matches the output bytes of the real code against them over random descriptors (types x widths x access x flags x handler subsets x groups) and capacities around the text length, by line and by event.",
             "note": "consistency 'advertised form is accepted' follows from the dispatcher oracle (LineOutcome) being checked on the same tables", "technique": _T},
 }
+
+PROPS["C03"]["families"] = [GENERAL_S, fam("fam_bounds", 40, 800), fam("fam_buf", 20, 400), fam("fam_num", 20, 400)]
+PROPS["C05"]["families"] = [GENERAL_S, fam("fam_buf", 60, 1500)]
+PROPS["C06"]["families"] = [GENERAL_S, fam("fam_bounds", 50, 1000)]
+PROPS["C07"]["families"] = [fam("fam_round", 40, 1500), fam("fam_round_exh8", 12, 60), fam("fam_access", 20, 300)]
+PROPS["C08"]["families"] = [GENERAL_S, fam("fam_access", 60, 1500)]
+PROPS["C09"]["families"] = [GENERAL_S, fam("fam_flags", 40, 1000)]
+PROPS["C10"]["families"] = [GENERAL_S, fam("fam_codes", 40, 1000)]
+PROPS["C11"]["families"] = [GENERAL_S, fam("fam_sched", 48, 1200)]
+PROPS["C12"]["families"] = [GENERAL_S, fam("fam_sched", 48, 1200)]
+PROPS["C13"]["families"] = [GENERAL_S, fam("fam_ring", 24, 400), fam("fam_quiesce", 10, 200)]
+PROPS["C14"]["families"] = [GENERAL_S, fam("fam_hold", 40, 800)]
+PROPS["C15"]["families"] = [GENERAL_S, fam("fam_quiesce", 40, 800), fam("fam_sched", 16, 200)]
+PROPS["C16"]["families"] = [fam("fam_mutex", 64, 1600), {"name": "fam_general_mutex", "gen": fam_general(lines=3, mutex=True), "quick": 30, "thorough": 600}]
+PROPS["C18"]["families"] = [GENERAL_S, fam("fam_sched", 32, 800), fam("fam_hold", 16, 300)]
+PROPS["C20"]["families"] = [GENERAL_S, fam("fam_hist", 80, 2000)]
